@@ -140,6 +140,10 @@ func (s *Sched) Run(maxSteps int) bool {
 		}
 		if c == n {
 			q := s.Quanta[s.rc.T.Choose(len(s.Quanta))]
+			if s.Fair != nil && s.Fair() && q > 50*time.Millisecond {
+				// while liveness is measured the scheduler must not inflate simulated time itself
+				q = 50 * time.Millisecond
+			}
 			s.Trace = append(s.Trace, fmt.Sprintf("clock+%s", q))
 			s.rc.Logf("SCHED clock +%s (parked=%d alive=%d)", q, n, alive)
 			time.Sleep(q)
